@@ -21,6 +21,38 @@ def parse_file(gtirb, raw):
     return msg
 
 
+def canonical_order(msg):
+    """every repeated field of the message in a canonical order (by UUID,
+    edges by ends and label, flags by number): the writer emits unordered
+    collections in Python `set` order, which depends on object addresses;
+    streams that index into the message positionally (fault injection) sort
+    first, so that their cases are a function of VERIF_SEED alone"""
+    def srt(rep, key):
+        items = sorted(rep, key=key)
+        del rep[:]
+        rep.extend(items)
+
+    def blk(b):
+        w = b.WhichOneof("value")
+        return (bytes(getattr(b, w).uuid) if w else b"", b.offset)
+    for m in msg.modules:
+        srt(m.proxies, lambda p: bytes(p.uuid))
+        srt(m.symbols, lambda y: bytes(y.uuid))
+        srt(m.sections, lambda z: bytes(z.uuid))
+        for z in m.sections:
+            srt(z.section_flags, int)
+            srt(z.byte_intervals, lambda x: bytes(x.uuid))
+            for x in z.byte_intervals:
+                srt(x.blocks, blk)
+                for k in x.symbolic_expressions:
+                    srt(x.symbolic_expressions[k].attribute_flags, int)
+    srt(msg.cfg.vertices, bytes)
+    srt(msg.cfg.edges, lambda e: (
+        bytes(e.source_uuid), bytes(e.target_uuid), e.HasField("label"),
+        e.label.type, e.label.conditional, e.label.direct))
+    return msg
+
+
 def save(ir):
     buf = io.BytesIO()
     with core.time_limit(60):
@@ -79,6 +111,22 @@ def add_aux(gen, gtirb, rng, ir):
             elif rng.random() < 0.2:
                 t = ("sequence", [("tuple", [("Offset", []),
                                              ("string", [])])])
+            elif rng.random() < 0.3:
+                # node references in every nesting position a codec passes
+                # the lookup through (variant alternatives, tuple fields,
+                # mapping values, sequences of sequences)
+                t = rng.choice([
+                    ("variant", [("uint8_t", []), ("UUID", [])]),
+                    ("sequence", [("variant", [("UUID", []),
+                                               ("string", [])])]),
+                    ("mapping", [("string", []),
+                                 ("variant", [("Offset", []),
+                                              ("int64_t", [])])]),
+                    ("tuple", [("uint8_t", []),
+                               ("sequence", [("sequence", [("UUID", [])])])]),
+                    ("mapping", [("uint8_t", []), ("tuple", [("UUID", []),
+                                                            ("Offset", [])])]),
+                ])
             else:
                 t = cc.gen_type(rng, rng.randrange(0, 3))
             v = cc.gen_value(rng, world, t, True)
